@@ -228,6 +228,13 @@ func (s *Server) verifyConsensusFieldMain(cp *params.CaravelParams, seedHeader *
 		logging.Error("VerifyHeader failed. Get consensus data failed.", err)
 		return errInvalidConsensusData
 	}
+	// The committee sizes are fixed by the protocol version in force, never chosen by the
+	// block's author: an honest proposer always copies them from the protocol parameters.
+	if cp != nil && (consensusData.ProposerThreshold != cp.ProposerThreshold || consensusData.ValidatorThreshold != cp.ValidatorThreshold) {
+		logging.Error("VerifyHeader failed. Thresholds differ from the protocol parameters.", "Round", consensusData.Round,
+			"proposerTh", consensusData.ProposerThreshold, "validatorTh", consensusData.ValidatorThreshold)
+		return errInvalidConsensusData
+	}
 	// get block proposer's public key and VRF public key
 	pubKey, err := consensusData.GetPublicKey()
 	if err != nil {
